@@ -2,7 +2,7 @@
 (* Generator for C16: ignore-file contents x argument lists x flags. *)
 EXTENDS Selection, TLC, Json
 
-CONSTANTS Pats, ArgSets, MaxPats, FlagSets
+CONSTANTS Pats, ArgSets, MaxPats, FlagSets, GlobSets
 VARIABLES sc, phase
 vars == <<sc, phase>>
 
@@ -36,6 +36,18 @@ ArgsOf(s) ==
     [] s = "notes+src" -> <<A("file", "src/notes.txt", <<"src">>), A("dir", "src", <<"src">>)>>
     [] s = "lib+src" -> <<A("dir", "lib", <<"lib">>), A("dir", "src", <<"src">>)>>
 
+(* -g lists (a plain pattern selects, a negated one excludes) *)
+GlobsOf(g) ==
+  CASE g = "none" -> <<>>
+    [] g = "lua" -> <<P("ext", "lua", FALSE)>>
+    [] g = "luau" -> <<P("ext", "luau", FALSE)>>
+    [] g = "txt" -> <<P("ext", "txt", FALSE)>>
+    [] g = "lua-b" -> <<P("ext", "lua", FALSE), P("name", "b.lua", TRUE)>>
+    [] g = "-b+lua" -> <<P("name", "b.lua", TRUE), P("ext", "lua", FALSE)>>      \* the later pattern wins
+    [] g = "-vendor" -> <<P("dir", "vendor", TRUE)>>                              \* only an exclusion: everything else is selected
+    [] g = "lua-vendor" -> <<P("ext", "lua", FALSE), P("dir", "vendor", TRUE)>>
+    [] g = "under-src" -> <<P("under", "src", FALSE)>>
+
 PatSeqs == {<<>>} \cup {<<PatOf(a)>> : a \in Pats} \cup (IF MaxPats >= 2 THEN {<<PatOf(a), PatOf(b)>> : a \in Pats, b \in Pats} ELSE {})
 Flags(fs) == CASE fs = "none" -> [respect |-> FALSE, allow_hidden |-> FALSE]
                [] fs = "respect" -> [respect |-> TRUE, allow_hidden |-> FALSE]
@@ -45,14 +57,16 @@ Flags(fs) == CASE fs = "none" -> [respect |-> FALSE, allow_hidden |-> FALSE]
 Init == phase = "init" /\ sc = [none |-> TRUE]
 Build ==
   /\ phase = "init"
-  /\ \E r \in PatSeqs, s \in PatSeqs, a \in ArgSets, fl \in FlagSets :
+  /\ \E r \in PatSeqs, s \in PatSeqs, a \in ArgSets, fl \in FlagSets, g \in GlobSets :
         /\ (r = <<>> \/ s = <<>> \/ (Len(r) = 1 /\ Len(s) = 1))          \* budget: at most two patterns in total
-        /\ sc' = [ig_root |-> r, ig_src |-> s, args |-> ArgsOf(a), argset |-> a,
+        /\ (g # "none" => Len(r) + Len(s) <= 1)                            \* ... one next to a glob list
+        /\ sc' = [ig_root |-> r, ig_src |-> s, args |-> ArgsOf(a), argset |-> a, globs |-> GlobsOf(g), globset |-> g,
                   respect |-> Flags(fl).respect, allow_hidden |-> Flags(fl).allow_hidden]
   /\ phase' = "done"
 Spec == Init /\ [][Build]_vars
 
 (* the same explicit file under two spellings is one file *)
-Case == [sc |-> sc, selected |-> SelectedSet(sc), maybe |-> MaybeSet(sc), universe |-> {f.path : f \in Universe}]
+Case == [sc |-> sc, selected |-> SelectedSet(sc), maybe |-> MaybeSet(sc), universe |-> {f.path : f \in Universe},
+         ignored |-> {f.path : f \in {g \in Universe : Ignored(sc, g)}}]
 Emit == phase = "done" => PrintT(<<"CASE", ToJson(Case)>>)
 =============================================================================
